@@ -24,7 +24,9 @@ def tasks(tier):
     # Ovld level: a change on a function in use rebuilds it (and its linked descendants) into a brand-new table
     # filled from the effective method table; _set pushes a replaced signature down
     ovld_level = _core.update_tasks()[:-1] + _core.compile_tasks() + _core.attr_copy_tasks() + _core.register_frame_tasks()[:2] + _core.unregister_frame_tasks()[:2]
-    return ovld_level + _tm.state_tasks() + _tm.typemap_tasks()[:1] + _tm.register_unbounded_tasks() + _tm.register_tasks() + _tm.mtm_missing_tasks(("plain",)) + [
+    from contracts import callsites_c
+
+    return [dict(name="frames.rebuild", build=callsites_c.task(), mode="F")] + ovld_level + _tm.state_tasks() + _tm.typemap_tasks()[:1] + _tm.register_unbounded_tasks() + _tm.register_tasks() + _tm.mtm_missing_tasks(("plain",)) + [
         _tm.T("frames.register", __import__("pyvc.frames", fromlist=["frame_task"]).frame_task("frames.register", [
             ("TypeMap.register.writes_only_its_tables_and_cache", "typemap:TypeMap.register", "writes_within", ["types", "entries", "dict"]),
             ("MultiTypeMap.register.writes_tables_and_flushes_cache_fields", "typemap:MultiTypeMap.register", "writes_within", ["all", "errors", "dependent", "empty", "maps", "priorities", "tiebreaks", "type_tuples", "dict"]),
